@@ -96,6 +96,14 @@
 (*   len() of the argument and passes it to four consumers: a generator raises *)
 (*   TypeError.  Class "cards_matrices-generator-input" (the documented        *)
 (*   behaviour is the definition; disabled while in KnownDeviation).           *)
+(*   n_procs ("number of cores to use") is accepted and not passed on to       *)
+(*   mi_matrix, which has no such parameter: it has no effect (not a clause    *)
+(*   here; the plumbing table simply has no n_procs column).                   *)
+(*                                                                             *)
+(* COMPOSITION WITH Transitions.tla.  transition_stats calls transitions() on  *)
+(* one column at a time, i.e. its 1-D branch, for which Transitions.tla proves *)
+(* machine = Def (Exact1D, C20).  The pipeline here therefore uses Tr!DefRow,  *)
+(* obtained by INSTANCE with Transitions' variables bound to constants.        *)
 (*                                                                             *)
 (* STRUCTURE.  (1) definition-level operators Def*, (2) transcriptions in      *)
 (* operator form Impl* and a step machine per function (Mode selects which     *)
@@ -104,7 +112,9 @@
 (* the callees, which the callee machines are proved equal to, (3) invariants: *)
 (* machine = transcription = definition (up to the named deviation class) and  *)
 (* the laws, (4) EmitInv prints every input in scope with the expected         *)
-(* observables for replay into the real functions.                             *)
+(* observables for replay into the real functions.  The variable `ref` holds    *)
+(* the definition's value for the input (computed in Init, read only by        *)
+(* invariants), so that the clauses do not recompute it.                       *)
 (* Integers only: times are rationals <<num, den>> (Rational.tla).             *)
 EXTENDS Integers, Sequences, FiniteSets, FiniteSetsExt, SequencesExt, TLC, Json, Rational
 
@@ -435,17 +445,25 @@ D_Enter == /\ pc = "dtraj" /\ Len(inp.tt) >= 2
            /\ loc' = [traj |-> Zeros(inp.len)]
            /\ i' = 0 /\ pc' = "d_loop"
            /\ UNCHANGED <<ref, inp, j, out>>
-(* one iteration of `for i in range(num_transitions-1)`, by the branch taken *)
-D_Seg(v) == /\ pc = "d_loop" /\ i < Len(inp.tt) - 1
-            /\ LET a == inp.tt[i + 1]          \* seg_start = transition_times[i]   (0-based i)
-                   b == inp.tt[i + 2]          \* seg_end = transition_times[i+1]
-               IN /\ Decision(b - a, inp.O, inp.D) = v
-                  /\ loc' = [traj |-> WriteSlice(loc.traj, a, b, v)]
-            /\ i' = i + 1
-            /\ UNCHANGED <<ref, inp, pc, j, out>>
-D_SegDisordered == D_Seg(1)      \* likelihood_ratio >= 3.0: traj[seg_start:seg_end] = 1.
-D_SegOrdered == D_Seg(0)         \* else:                    traj[seg_start:seg_end] = 0.
-D_SegEither == D_Seg(2)          \* the integer intervals cannot tell which branch: frames marked 2
+(* one iteration of `for i in range(num_transitions-1)`, one action per branch taken *)
+SegStart == inp.tt[i + 1]          \* seg_start = transition_times[i]   (i is 0-based)
+SegEnd == inp.tt[i + 2]            \* seg_end = transition_times[i+1]
+SegVerdict == Decision(SegEnd - SegStart, inp.O, inp.D)
+(* likelihood_ratio >= 3.0: traj[seg_start:seg_end] = 1. *)
+D_SegDisordered == /\ pc = "d_loop" /\ i < Len(inp.tt) - 1 /\ SegVerdict = 1
+                   /\ loc' = [traj |-> WriteSlice(loc.traj, SegStart, SegEnd, 1)]
+                   /\ i' = i + 1
+                   /\ UNCHANGED <<ref, inp, pc, j, out>>
+(* else: traj[seg_start:seg_end] = 0. *)
+D_SegOrdered == /\ pc = "d_loop" /\ i < Len(inp.tt) - 1 /\ SegVerdict = 0
+                /\ loc' = [traj |-> WriteSlice(loc.traj, SegStart, SegEnd, 0)]
+                /\ i' = i + 1
+                /\ UNCHANGED <<ref, inp, pc, j, out>>
+(* the integer intervals cannot tell which branch is taken: the frames are marked 2 *)
+D_SegEither == /\ pc = "d_loop" /\ i < Len(inp.tt) - 1 /\ SegVerdict = 2
+               /\ loc' = [traj |-> WriteSlice(loc.traj, SegStart, SegEnd, 2)]
+               /\ i' = i + 1
+               /\ UNCHANGED <<ref, inp, pc, j, out>>
 D_Return == /\ pc = "d_loop" /\ i = Len(inp.tt) - 1
             /\ out' = loc.traj /\ pc' = "done"
             /\ UNCHANGED <<ref, inp, i, j, loc>>
@@ -626,7 +644,9 @@ AggLaws == (Mode = "agg" /\ Done) =>
 (* n_times plays no role (the machine never reads inp.nt); stated on the definition for the record *)
 AggIgnoresNTimes == (Mode = "agg" /\ Done) =>
   out = RefOf([inp EXCEPT !.nt = <<>>])
-(* NOT a property of the code or of its docstring: see the module header.  TLC refutes it. *)
+(* NOT a property of the code or of its docstring: see the module header.  TLC refutes it, e.g.
+   times = <<<<1/2>>, <<0>>>>, weight = <<1, 1>> gives 1/4, the observer mean is 1/2.  In the pipeline
+   "time > 0" is "the trajectory saw the feature change" (>= 2 transitions for the disordered time). *)
 AggIsMeanOverObservers == (Mode = "agg" /\ Done) =>
   LET tm == AggTimes(inp)
       seen == [a \in 1..ANT |-> [f \in 1..ANF |-> IF inp.times[a][f] > 0 THEN 1 ELSE 0]]
